@@ -375,7 +375,7 @@ def parse_template(path):
     while i < len(lines):
         ln = lines[i]
         st = ln.strip()
-        if st.startswith('//@@ fn ') or st.startswith('//@@ item '):
+        if st.startswith('//@@ fn ') or st.startswith('//@@ item ') or st.startswith('//@@ macrofn '):
             if buf:
                 out.append(('text', '\n'.join(buf) + '\n')); buf = []
             parts = st[5:].split()
@@ -830,6 +830,97 @@ def gen_fn(d):
     return text, meta
 
 
+def expand_macro_fn(rel, macro, first_arg):
+    """R7: single-arm `macro_rules! M { ($a:ident, $b:ident, $c:ty) => { BODY }; }` + invocation `M!(x, y, T);`
+    -> BODY with the fragments substituted textually.  Returns (fn_text, source_line, orig_text)."""
+    src, _ = _load(rel)
+    s = sig(lex(src))
+    # definition
+    di = None
+    for i, tk in enumerate(s):
+        if tk.kind == 'ident' and tk.text == 'macro_rules' and s[i + 1].text == '!' and s[i + 2].text == macro:
+            di = i
+            break
+    if di is None:
+        raise GenError('lost anchor: macro_rules! %s in %s' % (macro, rel))
+    ob = di + 3
+    assert s[ob].text == '{'
+    pat_open = ob + 1
+    if s[pat_open].text != '(':
+        raise GenError('macro %s: unsupported matcher' % macro)
+    pat_close_off = find_matching(src, s[pat_open].start)
+    pat = src[s[pat_open].start + 1:pat_close_off - 1]
+    params = re.findall(r'\$([A-Za-z_0-9]+)\s*:\s*(ident|ty)', pat)
+    if strip_ws(pat).count('$') != len(params):
+        raise GenError('macro %s: only ident/ty fragments are supported' % macro)
+    k = next(i for i, tk in enumerate(s) if tk.start >= pat_close_off)
+    if not (s[k].text == '=' and s[k + 1].text == '>' and s[k + 2].text == '{'):
+        raise GenError('macro %s: unsupported arm' % macro)
+    body_open = s[k + 2].start
+    body_close = find_matching(src, body_open)
+    body = src[body_open + 1:body_close - 1]
+    after = next(i for i, tk in enumerate(s) if tk.start >= body_close)
+    rest = [tk.text for tk in s[after:after + 2]]
+    if rest[0] == ';' and rest[1] != '}':
+        raise GenError('macro %s: more than one arm' % macro)
+    # invocation
+    inv = None
+    for i, tk in enumerate(s):
+        if tk.kind == 'ident' and tk.text == macro and i + 3 < len(s) and s[i + 1].text == '!' and s[i + 2].text == '(' and s[i + 3].text == first_arg and i != di + 2:
+            # skip cfg-disabled invocations
+            inv = i
+            break
+    if inv is None:
+        raise GenError('lost anchor: %s!(%s, ..) in %s' % (macro, first_arg, rel))
+    inv_close = find_matching(src, s[inv + 2].start)
+    args_text = src[s[inv + 2].start + 1:inv_close - 1]
+    # split args at top-level commas
+    args, depth, cur = [], 0, ''
+    for ch in args_text:
+        if ch in '(<[': depth += 1
+        elif ch in ')>]': depth -= 1
+        if ch == ',' and depth == 0:
+            args.append(cur.strip()); cur = ''
+        else:
+            cur += ch
+    if cur.strip():
+        args.append(cur.strip())
+    if len(args) != len(params):
+        raise GenError('macro %s: arity mismatch' % macro)
+    out = body
+    for (pname, _), a in zip(params, args):
+        out = re.sub(r'\$' + pname + r'\b', a, out)
+    return out.strip() + '\n', line_of(src, s[inv].start), src[s[di].start:body_close + 1] + ' /* invoked as */ ' + src[s[inv].start:inv_close]
+
+
+def gen_macrofn(d):
+    rel, macro, first = d.args[0], d.args[1], d.args[2]
+    o = opts(d.args[3:])
+    fn_text, line, orig = expand_macro_fn(rel, macro, first)
+    log = [('R7m', '%s!(%s, ..)' % (macro, first), 'textual expansion of the single-arm macro')]
+    fn_text = r0_drop(fn_text, log)
+    # split signature / body
+    s = sig(lex(fn_text))
+    depth = 0
+    bo = None
+    for tk in s:
+        if tk.text in '([': depth += 1
+        elif tk.text in ')]': depth -= 1
+        elif tk.text == '{' and depth == 0:
+            bo = tk.start
+            break
+    sigtext, body = fn_text[:bo], fn_text[bo:find_matching(fn_text, bo)]
+    sigtext = r4_result_name(sigtext.rstrip(), o.get('res', 'res'), log)
+    body = apply_rws(body, d, log)
+    body = apply_splices(body, d, log)
+    contract = d.contract.strip('\n')
+    text = sigtext.rstrip() + '\n' + (contract + '\n' if contract.strip() else '') + body + '\n'
+    meta = {'name': first, 'gen_name': first, 'selector': macro + '!', 'file': rel, 'line': line, 'end_line': line,
+            'props': [p for p in o.get('props', '').split(',') if p], 'rules': log, 'r1_sites': sum(1 for r in log if r[0] == 'R1'),
+            'external_body': False, 'stub': False, 'orig': fn_text, 'macro': True}
+    return text, meta
+
+
 def gen_item(d):
     rel, kind, name = d.args[0], d.args[1], d.args[2]
     o = opts(d.args[3:])
@@ -930,7 +1021,9 @@ def generate(unit, outdir=None):
                 out_lines.append(l); linemap.append({'k': 'template'})
             continue
         d = p
-        if d.kind == 'fn':
+        if d.kind == 'macrofn':
+            text, meta = gen_macrofn(d)
+        elif d.kind == 'fn':
             text, meta = gen_fn(d)
         else:
             text, meta = gen_item(d)
